@@ -163,9 +163,10 @@ static void *floor0_inverse1(vorbis_block *vb,vorbis_look_floor *i){
   vorbis_info_floor0 *info=look->vi;
   int j,k;
 
-  int ampraw=oggpack_read(&vb->opb,info->ampbits);
+  long ampraw=oggpack_read(&vb->opb,info->ampbits);
   if(ampraw>0){ /* also handles the -1 out of data case */
-    long maxval=(1<<info->ampbits)-1;
+    /* a successful read means ampbits<=32; the field may be that wide */
+    ogg_int64_t maxval=((ogg_int64_t)1<<info->ampbits)-1;
     float amp=(float)ampraw/maxval*info->ampdB;
     int booknum=oggpack_read(&vb->opb,ov_ilog(info->numbooks));
 
